@@ -45,7 +45,7 @@ def one(name, ids, tier):
         for cid in ids:
             env = dict(os.environ, VERIF_REPO=s, VERIF_EVIDENCE_DIR=s + '/_evidence', VERIF_REPLAY_DIR=s + '/_replays')
             t0 = time.time()
-            p = subprocess.run(['/verif/check', cid, '--tier', tier], env=env, capture_output=True, text=True,
+            p = subprocess.run([os.environ.get('VERIF_CHECK', '/verif/check'), cid, '--tier', tier], env=env, capture_output=True, text=True,
                                timeout=3600)
             lines = (p.stdout + p.stderr).splitlines()
             viol = [ln[:300] for ln in lines if ln.startswith('VIOLATION') or 'violation x' in ln]
